@@ -321,9 +321,16 @@ def run(ctx):
     accessor(ctx, letters)
     long_selfconsistency(ctx)
     long_optimality(ctx)
+    from . import spell_common
+    spell_common.run(ctx, "C04")
+
 
 
 def replay(sub, case, p):
+    if case.get("kind") == "spelling":
+        from . import spell_common
+        spell_common.run(p, "C04")
+        return
     if case["kind"] == "longsc":
         long_selfconsistency(p)
         return
